@@ -79,6 +79,17 @@ def _edge_insertion(pt, v):
     return False
 
 
+def _site_deleted(pt, v):
+    """True iff the whole footprint [v.pos, v.end) of the variant lies inside one D operation of this alignment."""
+    pos = pt["start"]
+    for op, l in pt["cigar"]:
+        if op == 2 and pos <= v.pos and v.end <= pos + l:
+            return True
+        if op in (0, 2, 3, 7, 8):
+            pos += l
+    return False
+
+
 def cigar_class(cig):
     ops = {op for op, l in cig}
     name = ""
@@ -120,6 +131,7 @@ def run_one(rng, counters):
             # with a reference two neighbouring indels have no unique representation; CIGAR-based detection has no such excuse
             "companion_kinds": (("snv",) if rng.random() < 0.7 else ("snv", "ins", "del", "mnp")) if use_ref else ("snv", "ins", "del"),
             "companion_max_len": rng.choice([6, 6, 13]),
+            "covering_deletions": rng.choice([0.0, 0.0, 0.3]),
         }
         sim = genome.simulate(rng, tmp, p)
         desc = {"params": p, "use_ref": use_ref}
@@ -171,6 +183,15 @@ def run_one(rng, counters):
                 partial = any(not (b[0] <= lo_full and b[1] >= hi_full) for b in touching)
                 r_ = rec.get(npos)
                 cls = "%s/%s" % (cigar_class(parts[0]["cigar"]), v.kind)
+                gone = [_site_deleted(pt, v) for pt in parts if any(b[0] < v.end and b[1] > v.pos for b in blocks_of(pt["start"], pt["cigar"]))]
+                if gone and any(gone):
+                    # the variant's site lies inside a deletion of the alignment: the read has no base of it
+                    if all(gone):
+                        counters["pairs_site_deleted"] = counters.get("pairs_site_deleted", 0) + 1
+                        if r_ is not None:
+                            viol.append({"mech": "spurious-allele:" + v.kind + ":site-deleted-in-read" + (":noref" if not use_ref else ""),
+                                         "msg": "fragment %s (alignments %r) has a deletion over the site of %s %r but allele %r was recorded" % (name, [(pt["start"], pt["cigar"]) for pt in parts], v.kind, v.as_list(), r_)})
+                    continue
                 if not touching:
                     counters["pairs_not_overlapping"] = counters.get("pairs_not_overlapping", 0) + 1
                     if r_ is not None:
